@@ -340,7 +340,7 @@ def _gen_vertexdict(rng, tier):
     nh = 100 if tier == 'quick' else 800
     for hi_ in range(nh):
         atol = TOLS[hi_ % len(TOLS)]
-        rtol = 0.0 if hi_ % 3 != 2 else rng.choice([1e-5, 1e-3])
+        rtol = 0.0 if hi_ % 3 != 2 else rng.choice([1e-5, 1e-3, 1e-2])
         dim = rng.choice([1, 2, 2, 3])
         ncl = rng.randint(1, 4)
         centres = []
@@ -355,7 +355,8 @@ def _gen_vertexdict(rng, tier):
         val = 0
         for _ in range(nops):
             c = rng.choice(centres)
-            key = [x + rng.choice([0.0, 0.0] + [s * f for f in FRACS for s in (1.0, -1.0)]) * atol for x in c]
+            # offsets in units of the tolerance at that coordinate (atol + rtol*|x|), both signs of x occur
+            key = [x + rng.choice([0.0, 0.0] + [s * f for f in FRACS for s in (1.0, -1.0)]) * (atol + rtol * abs(x)) for x in c]
             op = rng.choice(['set', 'set', 'get', 'get', 'get', 'setdefault', 'contains', 'del', 'len'])
             m, margin = _vd_matches(rows, key, fr_rtol, fr_atol)
             if margin is not None and margin < F(1, 20):
@@ -376,6 +377,11 @@ def _gen_vertexdict(rng, tier):
         f = [0.5, 2.0][(i // len(TOLS)) % 2] if tier != 'quick' else [0.5, 2.0][i % 2]
         base = rng.choice([0.0, 1.0, -2.0])
         specs.append({'kind': 'model_vertices', 'tol': tol, 'frac': f, 'base': base})
+    # the same with a relative tolerance and patches at negative coordinates
+    for i in range(10 if tier == 'quick' else 60):
+        tol = TOLS[i % len(TOLS)]
+        specs.append({'kind': 'model_vertices', 'tol': tol, 'rtol': rng.choice([1e-5, 1e-3]), 'frac': [0.5, 2.0][i % 2],
+                      'base': rng.choice([-37.5, -2.0, 5.0, -0.5])})
     return specs
 
 
@@ -881,7 +887,7 @@ def model_line(s):
         # the PROPERTY: vertices are merged with the configured control-point tolerances
         pts = _model_vertices_points(s)
         ops = [[Word('setdefault'), p, i + 1] for i, p in enumerate(pts)]
-        return line('c20_vertexdict', 0, s['tol'], ops + [[Word('len'), [0.0, 0.0], 0]])
+        return line('c20_vertexdict', s.get('rtol', 0.0), s['tol'], ops + [[Word('len'), [0.0, 0.0], 0]])
     if k == 'state_nest':
         return line('c20_state_nest', state_translate.prog_to_val(_prog()), [[Word(n), v] for n, v in s['init']], _enc_block(s['block']))
     if k == 'monitor':
@@ -895,7 +901,8 @@ def model_line(s):
 
 
 def _model_vertices_points(s):
-    base, sep = s['base'], s['frac'] * s['tol']
+    base = s['base']
+    sep = s['frac'] * (s['tol'] + s.get('rtol', 0.0) * abs(base + 1.0))
     return [[base, base], [base + 1.0, base], [base + 1.0 + sep, base], [base + 2.0, base + 1.0]]
 
 
@@ -986,7 +993,7 @@ def _vd_run(sp, s):
 def _model_vertices_impl(sp, s):
     cf = _mod(sp, 'curve_factory')
     p = _model_vertices_points(s)
-    with _tol(sp, controlpoint_absolute_tolerance=s['tol'], controlpoint_relative_tolerance=0.0):
+    with _tol(sp, controlpoint_absolute_tolerance=s['tol'], controlpoint_relative_tolerance=s.get('rtol', 0.0)):
         m = sp.SplineModel(pardim=1, dimension=2)
         m.add([cf.line(p[0], p[1]), cf.line(p[2], p[3])])
         return len(m.catalogue.nodes(0))
@@ -1218,17 +1225,26 @@ def _oracle_continuity(sp, s):
 
 
 def _oracle_vertexdict(sp, s):
-    if s['rtol'] != 0.0:
-        return []
-    atol = F(s['atol'])
+    """From the definition, independent of `_bounds`: two coordinates are the same when they differ by
+    at most atol + rtol*|.| .  Which of the two magnitudes is the reference, and the end of the range
+    itself, are left open: `same` needs 0.95*(atol + rtol*min), `distinct` 1.05*(atol + rtol*max)."""
+    atol, rtol = F(s['atol']), F(s['rtol'])
     VD = _mod(sp, 'splinemodel').VertexDict
-    d = VD(rtol=0.0, atol=s['atol'])
-    ref = []      # [key, value, alive] — the definition: same vertex iff every coordinate differs by < atol
+    d = VD(rtol=s['rtol'], atol=s['atol'])
+    ref = []      # [key, value, alive]
     fails = []
 
+    def close(a, b):
+        a, b = F(a), F(b)
+        return abs(a - b) < F(95, 100) * (atol + rtol * min(abs(a), abs(b)))
+
+    def apart(a, b):
+        a, b = F(a), F(b)
+        return abs(a - b) > F(105, 100) * (atol + rtol * max(abs(a), abs(b)))
+
     def matches(key):
-        same = [i for i, r in enumerate(ref) if r[2] and all(abs(F(a) - F(b)) < atol for a, b in zip(r[0], key))]
-        unclear = [i for i, r in enumerate(ref) if r[2] and i not in same and all(abs(F(a) - F(b)) <= atol for a, b in zip(r[0], key))]
+        same = [i for i, r in enumerate(ref) if r[2] and all(close(a, b) for a, b in zip(r[0], key))]
+        unclear = [i for i, r in enumerate(ref) if r[2] and i not in same and not any(apart(a, b) for a, b in zip(r[0], key))]
         return same, unclear
     for j, (op, key, v) in enumerate(s['ops']):
         same, unclear = matches(key)
@@ -1243,8 +1259,8 @@ def _oracle_vertexdict(sp, s):
                 except KeyError:
                     found = False
                 if found != bool(same):
-                    fails.append('atol=%g op %d: lookup of %r %s, but %s' % (s['atol'], j, key, 'succeeds' if found else 'raises KeyError',
-                                 'it is within atol of the stored key %r' % ref[same[0]][0] if same else 'some coordinate differs by more than atol from every stored key'))
+                    fails.append('rtol=%g atol=%g op %d: lookup of %r %s, but %s' % (s['rtol'], s['atol'], j, key, 'succeeds' if found else 'raises KeyError',
+                                 'it is within the tolerance of the stored key %r' % ref[same[0]][0] if same else 'some coordinate differs by more than the tolerance from every stored key'))
                     return fails
                 if found and got not in [ref[i][1] for i in same]:
                     fails.append('atol=%g op %d: lookup of %r returns %r, the value of no stored key within atol' % (s['atol'], j, key, got))
@@ -1282,8 +1298,8 @@ def _oracle_model_vertices(sp, s):
     got = _model_vertices_impl(sp, s)
     want = 3 if s['frac'] < 1 else 4
     if got != want:
-        return ['controlpoint_absolute_tolerance=%g, relative 0: two curves whose end points are %g*tol apart give %d vertices in a SplineModel, expected %d'
-                % (s['tol'], s['frac'], got, want)]
+        return ['controlpoint_absolute_tolerance=%g, relative %g: two curves whose end points are %g*(atol+rtol*|x|) apart (x = %g) give %d vertices in a SplineModel, expected %d'
+                % (s['tol'], s.get('rtol', 0.0), s['frac'], s['base'] + 1.0, got, want)]
     return []
 
 
@@ -1360,6 +1376,22 @@ def _oracle_orient(sp, s):
 
 
 def oracle(sp, s):
+    """An exception escaping from the LIBRARY during a property experiment is a failure of the
+    property on this input (e.g. a stored vertex that is not found by its own coordinates); an
+    exception of the harness itself stays an infrastructure error."""
+    import traceback
+    try:
+        return _oracle(sp, s)
+    except Exception as e:  # noqa: BLE001
+        frames = traceback.extract_tb(e.__traceback__)
+        pkg = os.path.dirname(os.path.abspath(sp.__file__))
+        if frames and os.path.abspath(frames[-1].filename).startswith(pkg):
+            return ['the library raised %s(%s) in %s:%d during the %s experiment'
+                    % (exc_kind(e), str(e)[:120], os.path.relpath(frames[-1].filename, pkg), frames[-1].lineno, s['kind'])]
+        raise
+
+
+def _oracle(sp, s):
     k = s['kind']
     if k == 'obj_eval':
         return _oracle_obj_eval(sp, s)
